@@ -24,10 +24,10 @@ PROPS["C19"] = dict(
     level="other", claimed=True,
     level_text="State-transition contracts of DefaultRandomCoin (new, reseed, next, draw, draw_integers, check_leading_zeros) over "
                "symbolic seeds/counters/nonces with a stub hasher, and validity of drawn elements (from_random_bytes of the three "
-               "base fields accepts exactly canonical encodings).",
+               "base fields, and of the quadratic / cubic extensions of the 64-bit field, accepts exactly canonical encodings).",
     level_note="Bounded in the requested count of draw_integers (<= 3) and the rejection loop of draw (<= 2 rejections). "
                "Trusted: parametricity of the coin in its hasher (StubHasher double), determinism of safe Rust. Extension-field "
-               "from_random_bytes is not under contract.",
+               "from_random_bytes of the 62- and 128-bit fields is not under contract.",
     explanation=MIX)
 
 PROPS["C10"] = dict(
